@@ -286,7 +286,179 @@ def h_loaded_dict(I, fi):
             "a = ref counts, b = alt counts, tumour content from the same row; cn / mu / log_pi from that prior", kind="post")
 
 
+# ----------------------------------------------------------------------------------------------------------- the pandas part, as expression terms
+#
+# pandas itself is outside the engine; what CAN be pinned down on the real source is WHICH pandas expressions decide the filtering: the data frame is a term
+# algebra (column, comparison, .loc[mask], groupby(..)[..].transform("size"), unique) and the postconditions compare terms. Their meaning is pandas' (trusted).
+
+
+class E(Model):
+    """a pandas expression term"""
+
+    def __init__(self, *t):
+        self.t = t
+
+    def eq(self, I, other):
+        if isinstance(other, E):
+            return _same(self.t, other.t)
+        return E("cmp", "Eq", self, other)  # `series == scalar` is an element-wise comparison
+
+    def getitem(self, I, key):
+        return E("getitem", self, key)
+
+    def compare(self, I, op, other):
+        return E("cmp", type(op).__name__, self, other)
+
+    def rcompare(self, I, op, other):
+        return E("rcmp", type(op).__name__, other, self)
+
+    def a_loc(self, I):
+        return Loc(self)
+
+    def a_columns(self, I):
+        return Cols(self)
+
+    def m_unique(self, I):
+        return E("unique", self)
+
+    def m_groupby(self, I, by, **k):
+        return E("groupby", self, by)
+
+    def m_transform(self, I, how):
+        return E("transform", self, how)
+
+    def m_astype(self, I, ty):
+        return E("astype", self, getattr(ty, "name", ty))
+
+    def m___len__(self, I):
+        v = alg.sym("len_%d" % (abs(hash(repr(_flat(self.t)))) % 10 ** 8), "Int")
+        I.P.assume(I.P.z(v) >= 0)
+        return v
+
+    def setitem(self, I, key, v):
+        LOG.append(("setitem", self, key, v))
+
+
+class Loc(Model):
+    def __init__(self, df):
+        self.df = df
+
+    def getitem(self, I, key):
+        return E("loc", self.df, key)
+
+    def setitem(self, I, key, v):
+        LOG.append(("loc-set", self.df, key, v))
+
+
+class Cols(Model):
+    def __init__(self, df):
+        self.df = df
+
+    def contains(self, I, name):
+        from pyvc.interp import SBool
+        return SBool(z3.Bool("has_column_%s" % name))
+
+    def m___len__(self, I):
+        return alg.sym("n_columns", "Int")
+
+
+LOG = []
+
+
+def _flat(t):
+    if isinstance(t, E):
+        return ("E",) + _flat(t.t)
+    if isinstance(t, (tuple, list)):
+        return tuple(_flat(x) for x in t)
+    if isinstance(t, Num):
+        return ("num", t.key())
+    if isinstance(t, slice):
+        return ("slice", _flat(t.start), _flat(t.stop), _flat(t.step))
+    return t
+
+
+def _same(a, b):
+    return _flat(a) == _flat(b)
+
+
+def h_filters(I, cn_fi, dup_fi, cols_fi):
+    P = I.P
+    del LOG[:]
+    which = P.decide(3)
+    df = E("df")
+    I.registry.globals_override["sum"] = lambda I_, x: (alg.sym("n_true", "Int") if isinstance(x, E) else sum(I_.iterate(x)))
+    P.assume(P.z(alg.sym("n_true", "Int")) >= 0)
+    if which == 0:
+        out = I.call_function(cn_fi, [df], {}, force_inline=True)
+        dsl.cover(I, "filter.zero-copy-number")
+        want = E("loc", df, E("cmp", "Gt", E("getitem", df, "major_cn"), 0))
+        P.check("filter.zero-copy-number", isinstance(out, E) and _same(out.t, want.t), "exactly the rows with major_cn > 0 are kept", kind="post")
+    elif which == 1:
+        S = alg.sym("n_samples", "Int")
+        P.assume(P.z(S) >= 1)
+        samples = SymSeq("samples", S, lambda j: ("sample", j))
+        out = I.call_function(dup_fi, [df, samples], {}, force_inline=True)
+        dsl.cover(I, "filter.rows-per-mutation")
+        size = E("transform", E("getitem", E("groupby", df, E("getitem", df, "mutation_id")), "sample_id"), "size")
+        ok = isinstance(out, E) and out.t[0] == "loc" and out.t[1] is df and isinstance(out.t[2], E) and out.t[2].t[0] == "cmp" and out.t[2].t[1] == "Eq" and _same(out.t[2].t[2].t, size.t) \
+            and isinstance(out.t[2].t[3], Num) and (out.t[2].t[3] - S).is_zero()
+        P.check("filter.rows-per-mutation", ok, "a row is kept exactly when its mutation has as many rows as there are samples (with M-PIGEON and the excluded degenerate mix: one row in every sample)", kind="post")
+    else:
+        S = alg.sym("n_samples", "Int")
+        P.assume(P.z(S) >= 1)
+
+        class Samples(SymSeq):
+            def getitem(self, I_, key):
+                return ["s"]
+
+        samples = Samples("samples", S, lambda j: "s")
+        I.registry.globals_override["print"] = lambda I_, *a, **k: None
+        I.call_function(cols_fi, [df, samples], {}, force_inline=True)
+        dsl.cover(I, "filter.defaults")
+        has_err = not P.feasible(z3.Not(z3.Bool("has_column_error_rate")))
+        has_tc = not P.feasible(z3.Not(z3.Bool("has_column_tumour_content")))
+        sets = [e for e in LOG if e[0] == "loc-set"]
+        want = []
+        if not has_err:
+            want.append(("error_rate", 1e-3))
+        if not has_tc:
+            want.append(("tumour_content", 1.0))
+        got = []
+        for e in sets:
+            key, v = e[2], e[3]
+            if isinstance(key, tuple) and len(key) == 2 and isinstance(key[0], slice) and key[0] == slice(None, None, None):
+                got.append((key[1], float(I.to_num(v).const_value()) if I.to_num(v).is_const() else None))
+        P.check("filter.defaults", got == want and all(e[1] is df for e in sets), "a missing error_rate column is filled with 0.001 and a missing tumour_content column with 1.0, for every row; present columns are left alone", kind="post")
+
+
+def h_load_pyclone(I, fi):
+    P = I.P
+    log = []
+    I.registry.call_contracts[PYC + "._create_raw_data_df"] = lambda I_, a, k, n: (log.append(("raw", a[0])), E("raw"))[1]
+    I.registry.call_contracts[PYC + "._remove_cn_zero_mutations"] = lambda I_, a, k, n: (log.append(("cn", a[0])), E("no-zero-cn"))[1]
+    I.registry.call_contracts[PYC + "._remove_duplicated_and_partially_absent_mutations"] = lambda I_, a, k, n: (log.append(("dup", a[0], a[1])), E("complete"))[1]
+    I.registry.call_contracts[PYC + "._process_required_cols_on_df"] = lambda I_, a, k, n: log.append(("cols", a[0], a[1]))
+    I.registry.call_contracts[PYC + "._create_loaded_pyclone_data_dict"] = lambda I_, a, k, n: (log.append(("dict", a[0], a[1])), ("loaded",))[1]
+    I.registry.globals_override["sorted"] = lambda I_, x, **k: ("sorted", x)
+    I.registry.globals_override["print"] = lambda I_, *a, **k: None
+    out = I.call_function(fi, [("file",)], {}, force_inline=True)
+    dsl.cover(I, "load_pyclone_data")
+    kinds = [e[0] for e in log]
+    P.check("load.pipeline-order", kinds == ["raw", "cn", "dup", "cols", "dict"], "read -> drop zero copy number -> drop duplicated / partially absent -> defaults -> build, each once", kind="post")
+    if kinds != ["raw", "cn", "dup", "cols", "dict"]:
+        return
+    smp = log[2][2]
+    ok = isinstance(smp, tuple) and smp[0] == "sorted" and isinstance(smp[1], E) and _same(smp[1].t, E("unique", E("getitem", E("no-zero-cn"), "sample_id")).t)
+    P.check("load.samples-sorted-after-the-copy-number-filter", ok, "the sample list is the sorted distinct sample ids of the rows that survive the copy-number filter", kind="post")
+    P.check("load.stages-chained", log[0][1] == ("file",) and _same(log[1][1].t, E("raw").t) and _same(log[2][1].t, E("no-zero-cn").t) and _same(log[3][1].t, E("complete").t) and log[3][2] is smp
+            and _same(log[4][1].t, E("complete").t) and log[4][2] is smp and isinstance(out, tuple) and out[0] == ("loaded",) and out[1] is smp,
+            "every stage works on the result of the previous one with the same sample list; (loaded data, samples) is returned", kind="post")
+
+
 def verify_all(ctx, repo, prop="C17"):
     dsl.verify(ctx, repo, dsl.Registry(), prop, PYC + ".load_data", h_load_unclustered, expect_covers=["load.empty", "load.some"])
     dsl.verify(ctx, repo, dsl.Registry(), prop, PYC + "._create_clustered_data_arr", h_clustered, expect_covers=["clustered.mutation", "clustered.cluster", "clustered.no-cluster"])
     dsl.verify(ctx, repo, dsl.Registry(), prop, PYC + "._create_loaded_pyclone_data_dict", h_loaded_dict, expect_covers=["dict.no-mutation", "dict.no-sample", "dict.mutation-and-sample"])
+    dsl.verify(ctx, repo, dsl.Registry(), prop, [PYC + "._remove_cn_zero_mutations", PYC + "._remove_duplicated_and_partially_absent_mutations", PYC + "._process_required_cols_on_df"], h_filters,
+               expect_covers=["filter.zero-copy-number", "filter.rows-per-mutation", "filter.defaults"])
+    dsl.verify(ctx, repo, dsl.Registry(), prop, PYC + ".load_pyclone_data", h_load_pyclone, expect_covers=["load_pyclone_data"])
